@@ -48,7 +48,7 @@ class HistoryFamily:
     p_multi = 0.5
 
     def budget(self, tier):
-        return {'quick': 300, 'thorough': 5000, 'search': 1}.get(tier, 300)
+        return {'quick': 400, 'thorough': 5000, 'search': 1}.get(tier, 400)
 
     # ------------------------------------------------------------------------------------------ generation
     def gen_lazy1(self, rng, tier, max_ops=7):
